@@ -120,14 +120,16 @@ PROPS = {
         "assumptions": ["one compile unit never defines a name twice (rejected by the listener, C10)"],
     },
     "C01": {
-        "lean": ["GV.Props.C01", "GV.Props.C01p"],
+        "lean": ["GV.Props.C01", "GV.Props.C01p", "GV.Props.C01l"],
         "scenarios": [{"scn": "eval", "filter": "expr", "n": {"quick": 400, "thorough": 6000},
                        "aspects": ["value", "shape", "driver", "build"]},
                       {"scn": "eval", "filter": "matrix", "n": {"quick": 196, "thorough": 1960},
                        "aspects": ["value", "shape", "driver", "build"]},
                       {"scn": "eval", "filter": "parse", "n": {"quick": 400, "thorough": 6000},
-                       "aspects": ["value", "shape", "parse", "driver", "build"]}],
-        "rule": "parse: token strings of random expressions under random bracketings (needed brackets dropped, redundant ones added; one in eight damaged) as return value, assignment right-hand side or condition: the driver reads them with the parser model (reference table for the specification, regenerated table for the listener-shape comparison), accept / reject must agree; expr: random expression trees (depth 2-5) over literals, injected scalars of all 12 numeric kinds, strings, bools, struct fields, map / slice elements, locals, calls, rendered with minimal parentheses; @name/@id/@desc/@sal with several rules per text; matrix: every ordered pair of operand kinds x 10 operators with boundary values (2^53 neighbours, int64/uint64 extremes, zero divisors); non-trivial = the rule returned a value",
+                       "aspects": ["value", "shape", "parse", "driver", "build"]},
+                      {"scn": "lex", "n": {"quick": 1500, "thorough": 30000},
+                       "aspects": ["tokens", "lexerr", "crash", "driver"]}],
+        "rule": "lex: texts glued from keywords in several spellings, names with one to four dots, integer / real / exponent fragments (well formed and broken), operators and their two-character neighbours, string literals with escapes, doubled and missing quotes, comments with and without a final newline, and characters no rule matches, with and without white space between the fragments: the token stream (kinds and texts) of the generated ANTLR lexer (hook builder.VerifTokens) must be the one the lexer model computes and an error must be reported iff the model finds a position where no token rule matches; parse: token strings of random expressions under random bracketings (needed brackets dropped, redundant ones added; one in eight damaged) as return value, assignment right-hand side or condition: the driver reads them with the parser model (reference table for the specification, regenerated table for the listener-shape comparison), accept / reject must agree; expr: random expression trees (depth 2-5) over literals, injected scalars of all 12 numeric kinds, strings, bools, struct fields, map / slice elements, locals, calls, rendered with minimal parentheses; @name/@id/@desc/@sal with several rules per text; matrix: every ordered pair of operand kinds x 10 operators with boundary values (2^53 neighbours, int64/uint64 extremes, zero divisors); non-trivial = the rule returned a value",
         "trusted_base": TB_EVAL, "fingerprints": EVAL_FP + ["internal/iantlr:"],
         "assumptions": ["float64 operations of Go and of Lean's Float are both IEEE-754 binary64"],
     },
